@@ -1,7 +1,12 @@
 """C19 configuration for bin/check."""
 
 CFG = {
-        "tier_a": [],
+        "tier_a": ["CountsFns.EXPECTED_SHIFT", "CountsFns.COMPLETED_MASK", "CountsFns.completed",
+                   "CountsFns.expected", "CountsFns.with_root_callback", "CountsFns.expect_one",
+                   "CountsFns.complete_one", "CountsFns.scope_complete_is_last",
+                   "CountsFns.atomic_sites", "CountsFns.prog_rolock_read", "CountsFns.prog_rolock_lock",
+                   "CountsFns.prog_writer_drop", "CountsFns.prog_trigger_drop", "CountsFns.prog_notif_wait",
+                   "CountsFns.prog_notif_notify", "CountsFns.prog_notif_has_been_notified"],
         "model_targets": ["Conc/ScopeModel.vo", "Conc/RoLockModel.vo", "Conc/WritersModel.vo"],
         "proof_targets": ["Props/C19.vo"],
         "harness": [
@@ -13,7 +18,11 @@ CFG = {
              "prefix": "cases_vec", "timeout": 900},
         ],
         "trusted": [
-            "the transition systems in coq/Conc/*Model.v were written by hand from concurrency/src/threadpool/mod.rs, "
+            "Tier A (gen/CountsFns.v, regenerated every run): the AtomicCounts packing (shift, mask, decode, initial word, "
+            "expect_one guard + CAS target, complete_one fetch_add, completion test) is USED by Conc/ScopeModel.v; the "
+            "program-order operation lists of ReadOptimizedLock::read/lock and MutexWriter::drop are compared with the "
+            "RoLockModel labels by Conc/RoProg.v; the atomic-operation inventory (atomic_sites) is generated but not yet pinned",
+            "the REST of the transition systems in coq/Conc/*Model.v was written by hand from concurrency/src/threadpool/mod.rs, "
             "lib.rs, parallel_writer.rs, concurrent_vec.rs (sequentially consistent; one modelled step per atomic "
             "operation / channel operation of the source)",
             "event placement of harness h_conc (events are logged strictly inside the bracketed API calls, "
